@@ -50,6 +50,10 @@ pub enum Edit {
     NearNamePair { line: usize, how: String },
     /// generated project: the block whose header is at `line` appears twice (repeated write)
     BlockDuplicated { line: usize },
+    /// generated project: every attribute of the block at `line` whose value is the number 0
+    /// gets `value` (dormant features - fins, overhangs, setbacks, offsets - switched on, all
+    /// with the same size)
+    ZerosOn { line: usize, value: String },
     /// C02: definition header renamed (references untouched)
     DefRenamed { line: usize },
     /// C02: definition block removed
@@ -79,6 +83,7 @@ impl Edit {
             Edit::RenameEverywhere { .. } => "proj.renamed_consistently",
             Edit::NearNamePair { .. } => "proj.near_identical_names",
             Edit::BlockDuplicated { .. } => "disk.block_duplicated",
+            Edit::ZerosOn { .. } => "proj.zeros_on",
             Edit::DefRenamed { .. } => "disk.def_renamed",
             Edit::DefRemoved { .. } => "disk.def_removed",
             Edit::RefRenamed { .. } => "disk.ref_renamed",
@@ -104,6 +109,7 @@ impl Edit {
             | Edit::RenameEverywhere { line, .. }
             | Edit::NearNamePair { line, .. }
             | Edit::BlockDuplicated { line }
+            | Edit::ZerosOn { line, .. }
             | Edit::DefRenamed { line }
             | Edit::DefRemoved { line }
             | Edit::RefRenamed { line, .. } => Some(*line),
@@ -596,6 +602,33 @@ pub fn apply(text: &str, e: &Edit) -> Option<String> {
             v.extend_from_slice(&lines[*line..=end]);
             v.extend_from_slice(&lines[end + 1..]);
             Some(join(&v))
+        }
+        Edit::ZerosOn { line, value } => {
+            get(*line)?;
+            header_of(lines[*line])?;
+            let mut end = *line + 1;
+            while end < n && lines[end].trim() != ".." {
+                end += 1;
+            }
+            if end >= n {
+                return None;
+            }
+            let mut changed = false;
+            let mut out: Vec<String> = lines.iter().map(|s| s.to_string()).collect();
+            for i in *line + 1..end {
+                if let Some((k, v)) = lines[i].split_once('=') {
+                    let vt = v.trim();
+                    if !vt.is_empty() && vt.parse::<f64>().map(|x| x == 0.0).unwrap_or(false) {
+                        let cr = if lines[i].ends_with('\r') { "\r" } else { "" };
+                        out[i] = format!("{}= {}{}", k, value, cr);
+                        changed = true;
+                    }
+                }
+            }
+            if !changed {
+                return None;
+            }
+            Some(out.join("\n"))
         }
         Edit::NearNamePair { line, how } => {
             let l = get(*line)?;
